@@ -78,25 +78,23 @@ Theorem C19_source_csp_solutions_are_the_accepting_parameters : forall n cs, NoD
 Proof. exact tie_crev_chain. Qed.
 Print Assumptions C19_source_csp_solutions_are_the_accepting_parameters.
 
-(* compile_alt_fast - the compilation c_revision() actually runs - is GENERATED too.  With _extract_cond_masks returning the model's
-   mask_of (literal antecedent and consequent over atoms of the signature; compared with the code by the correspondence check), for every
-   prior over worlds of the signature and every list of conditionals with distinct indices it returns the model's fast compilation,
-   which C19_fast_equals_reference identifies with the reference compilation ... *)
-Theorem C19_source_compile_alt_fast_is_model : forall n mex rank_world pr,
+(* compile_alt_fast - the compilation c_revision() actually runs - is GENERATED too, with _extract_cond_masks and _literal_info
+   (pysmt node inspection; `try ... except KeyError`).  Over the signature a_0..a_(n-1), for every prior over worlds of the signature
+   and every list of conditionals with distinct indices whose literal conditionals mention atoms of the signature, it returns the
+   model's fast compilation, which C19_fast_equals_reference identifies with the reference compilation ... *)
+Theorem C19_source_compile_alt_fast_is_model : forall n rank_world pr,
   (forall p, In p pr -> In (fst p) (worlds n)) -> (forall p, In p pr -> rank_world (fst p) = Return (Z.of_nat (snd p))) ->
-  forall cs, NoDup (map ckey cs) -> forall sg, (forall c si, In c cs -> mex c si = Return (zmask (mask_of c))) ->
-  (forall c a av b bv, In c cs -> mask_of c = Some (a, av, b, bv) -> a < n /\ b < n) ->
-  py_compile_alt_fast n mex rank_world (zprior pr, sg) cs = Return (zcomp (fst (compile_fast cs pr)), zcomp (snd (compile_fast cs pr))).
+  forall cs, NoDup (map ckey cs) -> (forall c a av b bv, In c cs -> mask_of c = Some (a, av, b, bv) -> a < n /\ b < n) ->
+  py_compile_alt_fast n rank_world (zprior pr, sig_n n) cs = Return (zcomp (fst (compile_fast cs pr)), zcomp (snd (compile_fast cs pr))).
 Proof. exact tie_compile_alt_fast. Qed.
 Print Assumptions C19_source_compile_alt_fast_is_model.
 (* ... and the chain c_revision() runs (compile_alt_fast, then translate_to_csp) yields constraints whose solutions are exactly the
    parameters whose revised ranking accepts every revision conditional *)
-Theorem C19_source_revision_chain : forall n mex rank_world pr,
+Theorem C19_source_revision_chain : forall n rank_world pr,
   (forall p, In p pr -> In (fst p) (worlds n)) -> (forall p, In p pr -> rank_world (fst p) = Return (Z.of_nat (snd p))) ->
-  forall cs, NoDup (map ckey cs) -> forall sg, (forall c si, In c cs -> mex c si = Return (zmask (mask_of c))) ->
-  (forall c a av b bv, In c cs -> mask_of c = Some (a, av, b, bv) -> a < n /\ b < n) ->
+  forall cs, NoDup (map ckey cs) -> (forall c a av b bv, In c cs -> mask_of c = Some (a, av, b, bv) -> a < n /\ b < n) ->
   forall gpz gp gm, (gpz = true -> forall k, gp k = 0) -> exists comp csp,
-  py_compile_alt_fast n mex rank_world (zprior pr, sg) cs = Return comp /\
+  py_compile_alt_fast n rank_world (zprior pr, sig_n n) cs = Return comp /\
   py_translate_to_csp n comp gpz tt tt = Return csp /\
   forall s, gamma_assignment gp gm s ->
     ((exists s', (forall z, s' (SGp z) = s (SGp z) /\ s' (SGm z) = s (SGm z)) /\ csp_sat s' csp = true)
@@ -122,7 +120,7 @@ Proof. split; [repeat constructor; simpl; intuition discriminate|]. split; [intr
   split; [repeat constructor; simpl; intuition discriminate|]. split; [vm_compute; reflexivity|]. split; [vm_compute; reflexivity|].
   eexists. split; vm_compute; reflexivity. Qed.
 Example crev_fast_source_example :
-  py_compile_alt_fast 2 (fun c _ => Return (zmask (mask_of c))) (fun w => py_CustomPreOCF_rank_world 2 (zprior pr2) w false) (zprior pr2, [0;1]%Z) [c1;c2]
+  py_compile_alt_fast 2 (fun w => py_CustomPreOCF_rank_world 2 (zprior pr2) w false) (zprior pr2, sig_n 2) [c1;c2]
   = Return (zcomp (fst (compile_fast [c1;c2] pr2)), zcomp (snd (compile_fast [c1;c2] pr2)))
   /\ mask_of c1 = Some (0, true, 1, true) /\ mask_of c2 = None.
 Proof. vm_compute. repeat split. Qed.
